@@ -240,3 +240,31 @@ def prefix_slices(e):
         return None
     return rewrite(e, f)
 
+
+def for_each_bodies(p, b, eb):
+    """closures run by `(lo..hi).for_each(|i| ..)` in body b, each with a function that rewrites the
+    closure's expressions into the terms of b: captured variables resolved to their values and the
+    closure parameter replaced by the variable of the equivalent `for i in lo..hi` loop.
+    Yields (closure body, its ExprBuilder, rewrite, for_each call block)."""
+    from .expr import resolve_upvars, ExprBuilder
+    from .mir import callee_name
+    for bb, t in b.calls():
+        c = t["callee"]
+        if c["k"] != "fndef" or not callee_name(c).endswith("Iterator::for_each") or len(t["args"]) != 2:
+            continue
+        recv = eb.at(bb).op(t["args"][0])
+        clo = eb.op(t["args"][1])
+        if not (clo[0] == "agg" and clo[1].startswith("closure:")):
+            continue
+        cb = p.bodies.get(clo[1][len("closure:"):])
+        r = _range_of(recv)
+        if cb is None or r is None or cb.argc != 2:
+            continue
+        lv = ("field", ("variant", ("call", "std::iter::range::<impl std::iter::Iterator for std::ops::Range<A>>::next",
+                                    (("agg", "std::ops::Range::Range", (r[0], r[1]), ("start", "end")),)), "Some"), "0")
+
+        def rw(e, cb=cb, lv=lv):
+            e = resolve_upvars(p, cb, e)
+            return rewrite(e, lambda n: lv if (n[0] == "arg" and n[1] == 2) else None)
+        yield cb, ExprBuilder(cb), rw, bb
+
